@@ -686,7 +686,32 @@ pub fn direct_cases(num: bool) -> Vec<(Case, Expect)> {
     }
     if !num {
         v.extend(method_order_cases());
+        v.extend(void_instantiation_cases());
     }
+    v
+}
+
+/// Generic functions instantiated at `void` next to another instantiation: a void value occupies no stack slot, so
+/// parameters, locals and captures of the generic type exist in one instantiation and not in the other.
+pub fn void_instantiation_cases() -> Vec<(Case, Expect)> {
+    let d = "fn vkeep(x: T) -> int {\nlet f = () -> {\nlet y = x\n1\n}\nf()\n}\n\
+fn vkeep2(x: T, z: int) -> int {\nlet f = () -> {\nlet y = x\nz\n}\nf()\n}\n\
+fn vlocal(x: T, z: int) -> int {\nlet y = x\nlet w = z + 1\nw\n}\n\
+fn vpair(a: T, b: U, z: int) -> int {\nlet p = a\nlet q = b\nz\n}\n\
+fn vident(x: T) -> T = x\n\
+fn vtask(x: T, z: int) -> int {\nlet c: channel<int> = channel()\ntask {\nlet y = x\nc.write(z)\n}\nc.read()\n}\n\
+fn vnest(x: T, z: int) -> int {\nlet f = () -> {\nlet g = () -> {\nlet y = x\nz\n}\ng()\n}\nf()\n}\n";
+    let mut v = vec![];
+    let mut add = |name: &str, body: &str, e: Vec<i64>| {
+        v.push((Case::new(format!("void instantiation: {name}"), body.to_string()).decl(d), Expect::emits(e.into_iter().map(ei).collect())));
+    };
+    add("lambda capturing the generic parameter, at void and at int", "vh_emit_int(vkeep(nil))\nvh_emit_int(vkeep(5))\nvh_emit_int(vkeep(nil))", vec![1, 1, 1]);
+    add("lambda capturing a generic and an int parameter", "vh_emit_int(vkeep2(nil, 7))\nvh_emit_int(vkeep2(\"s\", 8))\nvh_emit_int(vkeep2(nil, 9))", vec![7, 8, 9]);
+    add("local of the generic type", "vh_emit_int(vlocal(nil, 1))\nvh_emit_int(vlocal(4, 2))", vec![2, 3]);
+    add("two type parameters, each void in turn", "vh_emit_int(vpair(nil, 3, 10))\nvh_emit_int(vpair(3, nil, 11))\nvh_emit_int(vpair(nil, nil, 12))\nvh_emit_int(vpair(1, 2, 13))", vec![10, 11, 12, 13]);
+    add("identity at void in an operand position", "let u = vident(nil)\nvh_emit_int(1 + {\nvident(nil)\n2\n})\nvh_emit_int(vident(4))", vec![3, 4]);
+    add("task capturing the generic parameter", "vh_emit_int(vtask(nil, 5))\nvh_emit_int(vtask(\"s\", 6))", vec![5, 6]);
+    add("nested lambdas capturing the generic parameter", "vh_emit_int(vnest(nil, 5))\nvh_emit_int(vnest(2, 6))", vec![5, 6]);
     v
 }
 
@@ -828,7 +853,7 @@ impl Prop for C22 {
             "G: generic functions {:?} × all ordered pairs (A, B) of the instantiation types satisfying the constraint, types = {:?}; each case calls the generic at A, B and A again \
              (two-parameter generics at (A,B), (B,A), (A,A)) and then the hand-monomorphised copies; oracle: equal traces (tags emitted by the user implementations + structural rendering of results) \
              and no tag of a type outside A, B. D: every comparison operator on all value pairs of the user struct and the user enum, `..`, method / interface-qualified / type-qualified calls, clone, \
-             a user interface, containers of user types through the prelude's generic implementations, `for` / indexing / indexed assignment on two user containers, Num operators, and a three-method user interface and the prelude's Ord implemented with the methods written in every / another order (interface-qualified, member and generic calls); oracle: exact tag sequence and value \
+             a user interface, containers of user types through the prelude's generic implementations, `for` / indexing / indexed assignment on two user containers, Num operators, and a three-method user interface and the prelude's Ord implemented with the methods written in every / another order (interface-qualified, member and generic calls), and generic functions (with locals, lambdas, nested lambdas and tasks using the generic parameter) instantiated at void next to another type; oracle: exact tag sequence and value \
              from a Rust model of the user implementations. Every case is counted as non-trivial (each executes at least one dispatch); distinct by case name.",
             GENS.iter().map(|g| g.name).collect::<Vec<_>>(),
             types(tier).iter().map(|t| t.expr()).collect::<Vec<_>>()
